@@ -16,7 +16,7 @@
   it (what the consuming call returns); `sp m` = the node returned by the swap of `m`'s push, `ts m` = the stub at that
   instant; `ih m` = the head report of `m`'s push.
 -/
-import MayVerif.Proof.Queue.TimerList.Head
+import MayVerif.Proof.Queue.TimerList.Refs
 namespace MayVerif.TimerList
 
 /-- **Each entry is consumed exactly once, popped in push order or removed.** In every reachable state:
@@ -226,6 +226,38 @@ theorem tl_consumer_asserts_hold (n : Nat) (sched : List (Tid × Env)) :
       rcases hpc with h | ⟨acc, h⟩ <;> rw [h] <;> rfl
     exact hi.vM _ (hi.d1 s.sh.tail (Or.inl rfl) hm hn).1
 
+/-- **Reference counts** (`tl_refs` of DESIGN §6, for the fixed code where `refs` is atomic – no "no contention"
+    precondition): the count part of `refs` is exactly the number of owners – the list (`lr`: every member, the stub as long
+    as the queue exists, a retired / removed node until the consumer's final decrement) and the handle (`hr`: from the swap
+    until the handle is dropped, wherever it is) – a node is freed exactly when both are gone (never earlier, and it never
+    leaks), the link bit implies the list's reference, and no decrement ever underflows. -/
+theorem tl_refs (n : Nat) (sched : List (Tid × Env)) :
+    let s := run (init n) sched
+    (∀ m, s.sh.rc m = (if s.sh.lr m = true then 1 else 0) + (if s.sh.hr m = true then 1 else 0)) ∧
+    (∀ m, 1 ≤ m → m < s.sh.nid → (s.sh.freed m = true ↔ s.sh.lr m = false ∧ s.sh.hr m = false)) ∧
+    (∀ m, m ∈ s.sh.L → s.sh.lr m = true) ∧ (s.sh.tr = true → s.sh.lr s.sh.tail = true) ∧
+    (∀ m, lrC (s.pcs 0) m = true → s.sh.lr m = true) ∧ (∀ m, s.sh.lnk m = true → s.sh.lr m = true) ∧
+    (∀ m, s.sh.hnd m = true → s.sh.hr m = true) ∧ (∀ t m, holds (s.pcs t) = some m → s.sh.hr m = true) ∧
+    (∀ m, 2 ≤ m → m < s.sh.nid → s.sh.rd m = false → s.sh.hr m = true) ∧
+    ((∀ o v k, s.pcs 0 = .cDec o v k → 1 ≤ s.sh.rc o) ∧ (s.pcs 0 = .qDec → 1 ≤ s.sh.rc s.sh.tail) ∧
+     (∀ m r, s.pcs 0 = .rDec m r → 1 ≤ s.sh.rc m) ∧ (∀ t m, holds (s.pcs t) = some m → 1 ≤ s.sh.rc m)) := by
+  intro s
+  have hi : Inv s := inv_reach n sched
+  have hl : InvL s := invL_reach n sched
+  refine ⟨hi.r1, ?_, ?_, hi.r6, fun m h => (hi.r7 m h).1, hi.r3, fun m h => (hi.r8a m h).1, fun t m h => holder_hr hi h,
+    fun m h1 h2 h3 => (hi.r8c m h1 h2 h3).1, dec_enabled s hi⟩
+  · intro m h1 h2
+    exact ⟨hi.r2 m, fun ⟨h3, h4⟩ => hi.r9 m h1 h2 h3 h4⟩
+  · intro m hm
+    exact hi.r5 m ((hl.l1 m).mp hm)
+
+/-- **No use after free** (fixed code, all schedules, handles may outlive the queue): whatever node the next step of any
+    actor reads or writes (`touches`, Proof/Queue/TimerList/Refs.lean: the operand nodes of every `prev` / `next` / `value` /
+    `refs` access of `push`, `pop`, `pop_if`, `peek`, `remove`, `is_link`, `Entry::drop`, `Queue::drop`) is not freed. -/
+theorem tl_no_use_after_free (n : Nat) (sched : List (Tid × Env)) (t : Tid) (m : Nid)
+    (hm : m ∈ touches (run (init n) sched).sh ((run (init n) sched).pcs t)) : (run (init n) sched).sh.freed m = false :=
+  touches_not_freed _ (inv_reach n sched) t m hm
+
 /-! ### Defect F12 of the pinned tree (`init n false` = the pinned `Queue::drop`), and the same schedule on the fixed model -/
 
 def f12sched : List (Tid × Env) :=
@@ -244,6 +276,12 @@ theorem tl_f12_pinned_use_after_free :
 example : (run (init 1) f12sched).pcs 0 = .lRefs 2 ∧ (run (init 1) f12sched).sh.freed 2 = false := by decide
 -- … and it is freed by the drop of its handle
 example : (run (init 1) (f12sched ++ [(0, .go), (0, .go), (0, .drop 2), (0, .go)])).sh.freed 2 = true := by decide
+
+-- `tl_no_use_after_free` is not vacuous: after the queue is gone the handle holder touches node 2 (and it is alive)
+example : 2 ∈ touches (run (init 1) f12sched).sh ((run (init 1) f12sched).pcs 0) := by decide
+-- the stub survives the queue because of its handle (`rc = 1`, owner = the handle), the initial stub was freed by the pop
+example : let s := run (init 1) f12sched
+    s.sh.rc 2 = 1 ∧ s.sh.lr 2 = false ∧ s.sh.hr 2 = true ∧ s.sh.tr = false ∧ s.sh.freed 1 = true := by decide
 
 -- two pushes, the first is popped, the second removed? – no: it is last (`next = null`), remove returns None and it stays
 example : let s := run (init 1) ([(0, .push 5)] ++ List.replicate 5 (0, .go) ++ [(0, .push 6)] ++ List.replicate 5 (0, .go) ++
